@@ -59,6 +59,7 @@ type Config struct {
 	DeadlockIsFinding bool     // a state with no runnable goroutine while main is unfinished is a violation
 	HB                bool     // happens-before race monitor
 	Trace             bool
+	RecursionIsFinding bool // exceeding MaxDepth is a violation (unbounded recursion) rather than an engine bound
 	MainFirst         bool // base schedule prefers the harness goroutine (the caller of the API under test) whenever it is enabled
 	Params            map[string]int // harness size parameters (verifrt.Param)
 	Redirects         map[string]string // callee name -> "import/path.Func" executed instead ("" = return zero values)
@@ -582,6 +583,20 @@ func callSSA(i *interpreter, caller *frame, callpos token.Pos, fn *ssa.Function,
 		fr.g = i.cur
 	}
 	if fr.depth > i.cfg.MaxDepth {
+		if i.cfg.RecursionIsFinding {
+			// find the function that recurses: the most frequent one on the stack
+			cnt := map[string]int{}
+			best := fn.String()
+			for f := caller; f != nil; f = f.caller {
+				cnt[f.fn.String()]++
+				if cnt[f.fn.String()] > cnt[best] {
+					best = f.fn.String()
+				}
+			}
+			i.violation("recursion", "unbounded recursion: "+best, fmt.Sprintf("call depth exceeded %d", i.cfg.MaxDepth), caller)
+			i.endPath("recursion")
+			panic(abortPath{})
+		}
 		i.recordBound("recursion depth > " + fmt.Sprint(i.cfg.MaxDepth) + " in " + fn.String())
 		panic(engineAbort{"recursion depth bound exceeded in " + fn.String()})
 	}
